@@ -2,6 +2,7 @@
 C14 — package references resolve to exactly the package the alias table denotes.
 -/
 import GontainerModel.Lemmas.Imports
+import GontainerModel.Lemmas.ImportsInv
 import GontainerModel.Generated.Regex
 import GontainerModel.Model.Regexes
 namespace GM.C14
@@ -96,6 +97,63 @@ theorem sanitize_forms : sanitize "\".\"" = "" ∧ sanitize "\"my/pkg\"" = "my/p
 theorem pin_import_regex :
     Generated.re_input_regexMetaImport = Rx.import_ ∧ Generated.re_input_regexMetaImportAlias = Rx.yamlToken ∧
     Generated.re_imports_regexNoAlphaNum = Rx.noAlphaNum := ⟨rfl, rfl, rfl⟩
+
+/-- **Different packages never share a local name, one import per package** — for every alias
+table and every sequence of references resolved from the empty table: the recorded paths are
+pairwise distinct and so are the local names, whatever the last path elements look like (the hex
+sequence number alone separates them: `i<hex n>_…` can be parsed back to `n`). -/
+theorem local_names_distinct (pre : List (String × String)) (rs : List String) :
+    ((aliasAll { prefixes := pre } rs).imports.map (·.1)).Nodup ∧
+    ((aliasAll { prefixes := pre } rs).imports.map (·.2)).Nodup :=
+  have h := tinv_aliasAll _ rs (tinv_init pre)
+  ⟨h.paths, h.names⟩
+
+/-- … and the same holds of the emitted import block (`Imports()`, sorted by path) -/
+theorem import_block_distinct (pre : List (String × String)) (rs : List String) :
+    ((importsList (aliasAll { prefixes := pre } rs)).map (·.1)).Nodup ∧
+    ((importsList (aliasAll { prefixes := pre } rs)).map (·.2)).Nodup := by
+  obtain ⟨h1, h2⟩ := local_names_distinct pre rs
+  unfold importsList
+  simp only [List.map_map]
+  constructor
+  · have : ((fun x : String × String => x.1) ∘ fun x : String × String => (x.2, x.1)) = (·.2) := by funext x; rfl
+    rw [this]
+    exact ((List.mergeSort_perm _ _).map _).nodup_iff.mpr h2
+  · have : ((fun x : String × String => x.2) ∘ fun x : String × String => (x.2, x.1)) = (·.1) := by funext x; rfl
+    rw [this]
+    exact ((List.mergeSort_perm _ _).map _).nodup_iff.mpr h1
+
+/-- **Two references get the same local name iff they denote the same package**: in any reachable
+table, whatever is resolved in between, `p` and `q` receive one name exactly when they resolve to
+one path -/
+theorem same_name_iff_same_package (pre : List (String × String)) (before mid : List String) (p q : String) :
+    let st := aliasAll { prefixes := pre } before
+    let s1 := alias st p
+    let s2 := aliasAll s1.1 mid
+    let s3 := alias s2 q
+    s1.2 = s3.2 ↔ decorate pre p = decorate pre q := by
+  intro st s1 s2 s3
+  have hst : TInv st := tinv_aliasAll _ before (tinv_init pre)
+  have hpre : st.prefixes = pre := aliasAll_prefixes _ before
+  have hpre2 : s2.prefixes = pre := by
+    show (aliasAll (alias st p).1 mid).prefixes = pre
+    rw [aliasAll_prefixes, alias_prefixes, hpre]
+  have h3 : TInv s3.1 := tinv_alias _ q (tinv_aliasAll _ mid (tinv_alias _ p hst))
+  have m1 : (decorate pre p, s1.2) ∈ s3.1.imports := by
+    have := alias_recorded st p
+    rw [hpre] at this
+    exact alias_mono s2 q _ (aliasAll_mono s1.1 mid _ this)
+  have m2 : (decorate pre q, s3.2) ∈ s3.1.imports := by
+    have := alias_recorded s2 q
+    rw [hpre2] at this
+    exact this
+  constructor
+  · intro e
+    have := eq_of_same_snd h3.names m1 m2 e
+    exact (Prod.mk.inj this).1
+  · intro e
+    have := eq_of_same_fst h3.paths m1 m2 e
+    exact (Prod.mk.inj this).2
 
 -- non-vacuity / the recorded witness of D8: alias `exp` must not rewrite `exp1/ossuary/pkg`
 example : TableOk [("exp", "exp1/my")] := ⟨by decide, by decide⟩
